@@ -30,6 +30,7 @@ import (
 
 	"github.com/IrineSistiana/mosdns/v5/pkg/dnsutils"
 	"github.com/IrineSistiana/mosdns/v5/pkg/pool"
+	"github.com/IrineSistiana/mosdns/v5/pkg/verifhook"
 )
 
 var (
@@ -114,6 +115,7 @@ func (dc *TraditionalDnsConn) exchange(ctx context.Context, q []byte) (*[]byte, 
 	}
 	reserved = false
 	defer dc.deleteQueueC(assignedQid)
+	verifhook.Point("tdc.exchange.registered")
 
 	// A reply that was already handed over wins over any error.
 	takeResp := func() *[]byte {
@@ -148,6 +150,7 @@ func (dc *TraditionalDnsConn) exchange(ctx context.Context, q []byte) (*[]byte, 
 		dc.c.SetReadDeadline(time.Now().Add(waitingReplyTimeout))
 	}
 
+	verifhook.Point("tdc.exchange.written")
 	var resend <-chan time.Time
 	if !dc.isTcp {
 		ticker := time.NewTicker(time.Second)
@@ -223,6 +226,7 @@ func (dc *TraditionalDnsConn) readLoop() {
 
 		rid := binary.BigEndian.Uint16(*r)
 		resChan := dc.getQueueC(rid)
+		verifhook.Point("tdc.read.lookup")
 		if resChan != nil {
 			select {
 			case resChan <- r: // resChan has buffer
